@@ -280,9 +280,40 @@ def split_const_bool_switches(rec):
     return rec
 
 
+def flatten_transparent_aggregates(rec):
+    """A field group that was moved into a private struct (engine/normalise.py makes the grouping field transparent: its name is
+    empty) is built by two nested aggregates; the outer one is rewritten to list the inner fields in place of the grouping field, as
+    the baseline's single aggregate did."""
+    defs = None
+    for b in rec["blocks"]:
+        for st in b["stmts"]:
+            rv = st["rv"]
+            if rv.get("r") != "agg" or "" not in (rv.get("fields") or []):
+                continue
+            if defs is None:
+                defs = {}
+                for b2 in rec["blocks"]:
+                    for s2 in b2["stmts"]:
+                        if len(s2["lhs"]) == 1:
+                            defs.setdefault(s2["lhs"][0], []).append(s2)
+            fields, ops = [], []
+            for f, o in zip(rv["fields"], rv["ops"]):
+                p = op_place(o) if f == "" else None
+                inner = defs.get(p[0], []) if p is not None and len(p) == 1 else []
+                if len(inner) == 1 and inner[0]["rv"].get("r") == "agg" and inner[0]["rv"].get("fields") is not None:
+                    fields += list(inner[0]["rv"]["fields"])
+                    ops += list(inner[0]["rv"]["ops"])
+                else:
+                    fields.append(f)
+                    ops.append(o)
+            rv["fields"], rv["ops"] = fields, ops
+    return rec
+
+
 class Fn:
     def __init__(self, rec, key, facts):
         rec = split_const_bool_switches(rec)
+        rec = flatten_transparent_aggregates(rec)
         self.rec = rec
         self.key = key
         self.facts = facts
@@ -366,6 +397,11 @@ class Fn:
         alld = self.defs().get(local, [])
         if len(ds) == 1 and len(alld) == 1:
             return ds[0]
+        if self.rec.get("inlined") and len(ds) > 1 and len(ds) == len(alld) and all(d[1] == "assign" for d in ds):
+            # copies of one statement in the specialised continuations of an inlined call (engine/inline.py): one definition
+            first = ds[0][2]["rv"]
+            if all(d[2]["rv"] == first for d in ds[1:]):
+                return ds[0]
         return None
 
     def resolve_fields(self, place, depth=0):
@@ -651,9 +687,11 @@ class Fn:
         return out
 
     # ------------------------------------------------------------------ value shapes
-    def shape(self, o, depth=0, seen=None):
+    def shape(self, o, depth=0, seen=None, at=None):
         """set of constructor chains ('Ready.Some.Err', 'const:1', 'call:<name>', '?') that
-        operand `o` may hold, following once- and multiply-assigned temporaries"""
+        operand `o` may hold, following once- and multiply-assigned temporaries.  With `at` (the node that reads the operand) only the
+        definitions that reach that node count (a helper inlined with one return path per outcome stores different variants in the
+        same local on different paths)."""
         if depth > 8:
             return {"?"}
         k = o.get("k")
@@ -668,9 +706,28 @@ class Fn:
             return {"?"}
         if len(p) != 1:
             return {"?"}
-        return self.local_shape(p[0], depth, seen)
+        return self.local_shape(p[0], depth, seen, at)
 
-    def local_shape(self, local, depth=0, seen=None):
+    def reaching_defs(self, local, at):
+        """whole-local definitions of `local` that reach node `at` without passing another whole definition of it"""
+        key = (local, at)
+        memo = self.__dict__.setdefault("_rdefs", {})
+        if key in memo:
+            return memo[key]
+        ds = self.defs().get(local, [])
+        live = self.live_nodes()
+        whole = [d for d in ds if len(self._lhs_of(d)) == 1 and d[0] in live]
+        if len(whole) <= 1:
+            memo[key] = whole
+            return whole
+        nodes = {d[0] for d in whole}
+        out = [d for d in whole if at in self.reach([d[0]], after=True, avoid=nodes - {d[0]}) or
+               (at == d[0] and False)]
+        # a definition that is its own only successor on the way (loops) is kept by the test above; nothing reaching = keep all
+        memo[key] = out or whole
+        return memo[key]
+
+    def local_shape(self, local, depth=0, seen=None, at=None):
         seen = set(seen or ())
         if local in seen:
             return set()
@@ -683,6 +740,8 @@ class Fn:
         whole = [d for d in ds if len(self._lhs_of(d)) == 1 and d[0] in live]
         if not whole:
             return {"?"}
+        if at is not None and len(whole) > 1:
+            whole = self.reaching_defs(local, at)
         for node, kind, p in whole:
             if kind == "call":
                 c = Call(self, node, p)
@@ -694,25 +753,25 @@ class Fn:
             elif kind == "yield":
                 out.add("?")
             else:
-                out |= self.rv_shape(p["rv"], depth + 1, seen)
+                out |= self.rv_shape(p["rv"], depth + 1, seen, node if at is not None else None)
         return out
 
-    def rv_shape(self, rv, depth=0, seen=None):
+    def rv_shape(self, rv, depth=0, seen=None, at=None):
         r = rv["r"]
         if r == "use":
-            return self.shape(rv["o"], depth + 1, seen)
+            return self.shape(rv["o"], depth + 1, seen, at)
         if r == "agg":
             adt = rv["adt"]
             if "var" in rv:
                 short = rv["var"]
                 ops = rv["ops"]
                 if len(ops) == 1:
-                    inner = self.shape(ops[0], depth + 1, seen)
+                    inner = self.shape(ops[0], depth + 1, seen, at)
                     return {"%s.%s" % (short, s) if not s.startswith(("?",)) else short + ".?" for s in inner}
                 return {short}
             return {adt}
         if r == "cast":
-            return self.shape(rv["o"], depth + 1, seen)
+            return self.shape(rv["o"], depth + 1, seen, at)
         return {"?"}
 
     def ret_sites(self):
@@ -730,7 +789,7 @@ class Fn:
                 else:
                     out.append((node, {"call:%s" % nm}))
             elif kind == "assign":
-                out.append((node, self.rv_shape(p["rv"])))
+                out.append((node, self.rv_shape(p["rv"], at=node)))
         return out
 
     def exits(self, cls=None):
@@ -1043,10 +1102,27 @@ class Fn:
             if rv["r"] in ("use", "cast"):
                 q = op_place(rv["o"])
                 if q is not None:
+                    if len(q) == 1 and len(p) >= 2 and isinstance(p[1], str) and re.match(r"^\.\d+$", p[1]):
+                        # a moved closure environment / tuple: the field is looked up where the aggregate is built
+                        dq = self.single_def(q[0])
+                        if dq is not None and dq[1] == "assign" and dq[2]["rv"]["r"] == "agg" and dq[2]["rv"].get("adt") in ("{closure}", "{coroutine}", "(tuple)"):
+                            return self._origin_place(q + list(p[1:]), depth + 1)
                     inner = self._origin_place(q, depth + 1)
                     if inner.startswith("&") and rest.startswith("*"):
                         return inner[1:] + rest[1:]
                     return inner + rest
+            if rv["r"] == "agg" and rv.get("adt") in ("{closure}", "{coroutine}", "(tuple)") and len(p) >= 2 and isinstance(p[1], str):
+                # field k of a closure environment / tuple built here is its k-th operand (the environment of an inlined closure)
+                m = re.match(r"^\.(\d+)$", p[1])
+                ops = rv.get("ops") or []
+                if m and int(m.group(1)) < len(ops):
+                    q = op_place(ops[int(m.group(1))])
+                    if q is not None:
+                        inner = self._origin_place(q, depth + 1)
+                        rest2 = "".join(p[2:])
+                        if inner.startswith("&") and rest2.startswith("*"):
+                            return inner[1:] + rest2[1:]
+                        return inner + rest2
             return "_%d%s" % (base, rest)
         if kind == "call":
             c = Call(self, node, pl)
